@@ -213,17 +213,8 @@ func timerRaceBodyN(interval bool, all []timedOp, end int) vsched.Body {
 		var cbs []int
 		cb := func() { cbs = append(cbs, int(x.Now()/tUnit)) }
 		var tm *utils.Timer
-		vsched.GoNamed("set", func() {
-			if interval {
-				tm = utils.SetInterval(cb, tPeriod*tUnit)
-			} else {
-				tm = utils.SetTimeout(cb, tPeriod*tUnit)
-			}
-		})
-		x.Settle()
 		doneN := 0
-		for _, p := range tops {
-			p := p
+		spawn := func(p timedOp) {
 			vsched.GoNamed(p.op, func() {
 				vsched.SleepUntil(time.Duration(p.at) * tUnit)
 				switch p.op {
@@ -236,6 +227,26 @@ func timerRaceBodyN(interval bool, all []timedOp, end int) vsched.Body {
 				}
 				doneN++
 			})
+		}
+		vsched.GoNamed("set", func() {
+			if interval {
+				tm = utils.SetInterval(cb, tPeriod*tUnit)
+			} else {
+				tm = utils.SetTimeout(cb, tPeriod*tUnit)
+			}
+			// operations at instant 0 start as soon as the constructor has returned: they race the
+			// start of the timer's own goroutine
+			for _, p := range tops {
+				if p.at == 0 {
+					spawn(p)
+				}
+			}
+		})
+		x.Settle()
+		for _, p := range tops {
+			if p.at != 0 {
+				spawn(p)
+			}
 		}
 		x.Run(time.Duration(end) * tUnit)
 		if doneN != len(tops) {
@@ -294,9 +305,10 @@ func init() {
 		})
 		register("C19", "race/"+kind, false, func(c *Ctx) {
 			opsA := []string{"stop", "refresh", "clear"}
-			ats := []int{1, 2}
+			// instant 0: the operation races the start of the timer's goroutine
+			ats := []int{0, 1, 2}
 			if interval {
-				ats = []int{1, 2, 4}
+				ats = []int{0, 1, 2, 4}
 			}
 			n := 0
 			for _, a := range opsA {
